@@ -159,6 +159,18 @@ def loads(vk, cfg):
             w = 2 * (ring.PI() if vk.sym else np.pi) * rg.mesh.points[p_, 1] if axi else 1
             spec[p_] = vals[k] * w
         vk.ensures_eq("vector==values(*2 pi R)", r, spec)
+        # ramped loads go through update(): the load is still its values (x 2 pi R)
+        vals2 = vk.reals("load2", (2, 2), near=2.0)
+        vk.real(fem.PointLoad.update)
+        it.update(vals2)
+        r2 = np.asarray(dense(vk, lambda: it.assemble.vector(fc))).reshape(npts, 2)
+        spec2 = np.zeros((npts, 2), dtype=object if vk.sym else float)
+        if vk.sym:
+            spec2[...] = LP()
+        for k, p_ in enumerate(pts):
+            w = 2 * (ring.PI() if vk.sym else np.pi) * rg.mesh.points[p_, 1] if axi else 1
+            spec2[p_] = vals2[k] * w
+        vk.ensures_eq("after-update/vector==values(*2 pi R)", r2, spec2)
         return
     fc = fem.FieldContainer([fem.Field(rg, dim=3, values=u)])
     k = vk.real_scalar("k", near=10.0)
